@@ -45,6 +45,12 @@ type Scenario struct {
 	Events    int        `json:"events"`   // event frames the peer sends to the first subscription
 	MaxRead   int        `json:"max_read"` // largest chunk a Read returns (0: unlimited)
 	LocalEnd  bool       `json:"local_end"`
+	// CloseErr: closing the stream reports an error (a transport that cannot say goodbye)
+	CloseErr bool `json:"close_err,omitempty"`
+	// IdleSub: the first subscriber does not read until the connection is
+	// lost, so the events sent to it (up to 150: more than its queue holds)
+	// wait in its pipeline meanwhile
+	IdleSub bool `json:"idle_sub,omitempty"`
 }
 
 // Case is a scenario; Only restricts the run to one fault (replay files).
@@ -72,7 +78,12 @@ func genCase(t *rapid.T) Case {
 	sc.Callbacks = rapid.IntRange(0, 2).Draw(t, "callbacks")
 	if sc.Subs > 0 {
 		sc.Events = rapid.IntRange(0, 3).Draw(t, "events")
+		if rapid.IntRange(0, 4).Draw(t, "idle") == 0 {
+			sc.IdleSub = true
+			sc.Events = rapid.SampledFrom([]int{3, 50, 101, 102, 150}).Draw(t, "backlog")
+		}
 	}
+	sc.CloseErr = rapid.IntRange(0, 4).Draw(t, "closeerr") == 0
 	sc.MaxRead = rapid.SampledFrom([]int{0, 5, 13, 28}).Draw(t, "maxread")
 	sc.LocalEnd = rapid.Bool().Draw(t, "localend")
 	return Case{Scenario: sc}
@@ -120,6 +131,11 @@ type callOutcome struct {
 func run(sc Scenario, fault *hio.Fault, localCloseAt int) runResult {
 	s := hio.NewScriptStream(fault)
 	s.MaxRead = sc.MaxRead
+	s.CloseErr = sc.CloseErr
+	resume := make(chan struct{})
+	var resumeOnce sync.Once
+	wake := func() { resumeOnce.Do(func() { close(resume) }) }
+	defer wake()
 	var ep qnet.EndPoint
 	var localClosed int32
 	var closeOnce sync.Once
@@ -175,6 +191,9 @@ func run(sc Scenario, fault *hio.Fault, localCloseAt int) runResult {
 			return runResult{violation: vt.Violationf("C11:subscribe-error", "Subscribe failed: %v", err)}
 		}
 		go func() {
+			if i == 0 && sc.IdleSub {
+				<-resume
+			}
 			for range events {
 				atomic.AddInt32(&subEvents[i], 1)
 			}
@@ -273,6 +292,8 @@ func run(sc Scenario, fault *hio.Fault, localCloseAt int) runResult {
 	} else if localCloseAt >= 0 {
 		what = fmt.Sprintf("local Close at op %d", localCloseAt)
 	}
+	// the connection is lost (or being lost): the idle subscriber reads again
+	wake()
 	// --- the oracle ---
 	for i, spec := range sc.Calls {
 		if !waitCall(i, bound) {
@@ -358,7 +379,12 @@ func checkCase(c Case) error {
 	n := base.ops
 	fired, notReached := 0, 0
 	// 2. every position x every fault kind
+	// (a long scenario, i.e. one with a big backlog of events, has its positions
+	// thinned out: the first and last thirty, and every ninth in between)
 	for k := 0; k <= n; k++ {
+		if n > 90 && k > 30 && k < n-30 && k%9 != 0 {
+			continue
+		}
 		for _, kind := range faultKinds {
 			for _, part := range []int{1, 9} {
 				if part == 9 && kind != hio.FaultReadPartial && kind != hio.FaultWritePartial {
